@@ -312,6 +312,12 @@ theorem fragments_iteration_order_free (H : TupleHash) (m : Mol) (hwf : m.WF = t
     exact ⟨K, ps', hps, cnt, by omega, hc2, rfl⟩
 
 
+example : ∃ cs, chains exMol 2 3 = .ok cs ∧ (∀ c ∈ cs, SimplePath exMol c) ∧ cs.reverse.Perm cs ∧ cs.reverse ≠ cs := by
+  refine ⟨[[3, 2], [2, 1], [4, 2], [4, 2, 3], [3, 2, 1], [4, 2, 1]], by rfl, ?_, List.reverse_perm _, by decide⟩
+  intro c hc
+  obtain ⟨p, hp, _, _, rfl⟩ := (chains_exact exMol (by decide) 2 3 (by decide) (by decide) _ (by rfl) c).mp hc
+  exact simplePath_canon exMol (by decide) p hp
+
 /-- the bit set depends on the hash set only through its members -/
 theorem active_bits_of_same_members (length : Nat) (nab : Int) (hs hs' : List Int) (h : ∀ x, x ∈ hs' ↔ x ∈ hs) (b : Nat) :
     b ∈ activeBits length nab hs' ↔ b ∈ activeBits length nab hs := by
